@@ -117,9 +117,8 @@ Qed.
 Definition jt_of (how : plhow) : jointype := match how with HInner => JInner | HLeft => JLeft | HFull => JFull end.
 
 Section JoinKeep.
-  Variables (how : plhow) (on_a on_b : list string) (a b : table).
+  Variables (how : plhow) (on_a on_b : list string) (a b : table) (S : string).
   Let ca := cols a. Let cb := cols b.
-  Let S := "_da_right_tmp".
   Let out := ca ++ map (suffixed ca S) cb.
   Let coal := filter (fun c => mem c cb) ca.
   Let xs := map (fun c => (c, CPlain (coalesce_left_first c (sfx c S)))) coal.
@@ -256,9 +255,8 @@ Lemma map_eq_In {A B} (f g : A -> B) l x : map f l = map g l -> In x l -> f x = 
 Proof. induction l as [|y t IH]; simpl; intros E I; [destruct I|]. inversion E. destruct I as [->|I]; auto. Qed.
 
 Section JoinRight.
-  Variables (on_a on_b : list string) (a b : table).
+  Variables (on_a on_b : list string) (a b : table) (S : string).
   Let ca := cols a. Let cb := cols b.
-  Let S := "_da_left_tmp".
   Let out := cb ++ map (suffixed cb S) ca.
   Let coal := filter (fun c => mem c cb) ca.
   Let xs := map (fun c => (c, CPlain (PWhen (PIsNull (PCol (sfx c S))) (PCol c) (PCol (sfx c S))))) coal.
@@ -389,11 +387,11 @@ Proof.
   intros Ga Gb NE -> H. unfold pl_join_step in H. destruct on_a as [|k0 on_a0]; [congruence|]. cbv iota zeta in H.
   destruct jt.
   - pose proof H as H''. apply rbind_ok in H''. destruct H'' as [r [Ej _]]. pose proof (pl_join_checks _ _ _ _ _ _ _ Ej) as N.
-    rewrite (join_keep_body HInner (k0 :: on_a0) on_b a b Ga Gb N t2 H). split; [reflexivity|apply Permutation_refl].
+    rewrite (join_keep_body HInner (k0 :: on_a0) on_b a b _ Ga Gb N t2 H). split; [reflexivity|apply Permutation_refl].
   - pose proof H as H''. apply rbind_ok in H''. destruct H'' as [r [Ej _]]. pose proof (pl_join_checks _ _ _ _ _ _ _ Ej) as N.
-    rewrite (join_keep_body HLeft (k0 :: on_a0) on_b a b Ga Gb N t2 H). split; [reflexivity|apply Permutation_refl].
+    rewrite (join_keep_body HLeft (k0 :: on_a0) on_b a b _ Ga Gb N t2 H). split; [reflexivity|apply Permutation_refl].
   - pose proof H as H''. apply rbind_ok in H''. destruct H'' as [r [Ej _]]. pose proof (pl_join_checks _ _ _ _ _ _ _ Ej) as N.
-    apply (join_right_body (k0 :: on_a0) on_b a b Ga Gb N t2 H).
+    apply (join_right_body (k0 :: on_a0) on_b a b _ Ga Gb N t2 H).
   - pose proof H as H''. apply rbind_ok in H''. destruct H'' as [r [Ej _]]. pose proof (pl_join_checks _ _ _ _ _ _ _ Ej) as N.
-    rewrite (join_keep_body HFull (k0 :: on_a0) on_b a b Ga Gb N t2 H). split; [reflexivity|apply Permutation_refl].
+    rewrite (join_keep_body HFull (k0 :: on_a0) on_b a b _ Ga Gb N t2 H). split; [reflexivity|apply Permutation_refl].
 Qed.
